@@ -14,7 +14,7 @@ func genSim(r *term.Rng, idx int) term.T {
 	}
 	n := nc + ne
 	hpScale := enemy.Curve(enemy.Curve1)[1].HPScaling
-	nscripts := r.Range(5, 14)
+	nscripts := r.Range(6, 15)
 	anyID := func() int64 {
 		if r.Chance(1, 30) {
 			return 99
@@ -37,8 +37,13 @@ func genSim(r *term.Rng, idx int) term.T {
 	flags := []int64{1, 3, 100}
 	// scripts [0, nbody) are bodies of actions / ults / inserts; scripts [nbody, nscripts) are run
 	// from listeners and must not open or close an attack bracket (legal use of the API)
-	nbody := nscripts - r.Range(1, 3)
+	// scripts [natk0, nscripts) are run only from the AttackStart listener, i.e. inside an attack that is
+	// already open: there a qualified attack is legal too (it adds hits to the open attack)
+	natk := r.Range(0, 2)
+	natk0 := nscripts - natk
+	nbody := natk0 - r.Range(1, 3)
 	listener := false
+	atkListener := false
 	genOp := func() term.T {
 		k := r.Intn(24)
 		if listener && k == 7 {
@@ -71,7 +76,7 @@ func genSim(r *term.Rng, idx int) term.T {
 			if len(ts) == 0 && r.Chance(3, 4) {
 				ts = append(ts, tsel())
 			}
-			return term.C("SAttack", term.I(int64(r.Range(1, 9))), term.L(ts...), term.B(!listener && r.Chance(3, 4)), term.F(term.Pick(r, dmgs)))
+			return term.C("SAttack", term.I(int64(r.Range(1, 9))), term.L(ts...), term.B((!listener || atkListener) && r.Chance(3, 4)), term.F(term.Pick(r, dmgs)))
 		case k < 8:
 			return term.C("SEndAttack")
 		case k < 11:
@@ -106,6 +111,7 @@ func genSim(r *term.Rng, idx int) term.T {
 	scripts := []term.T{}
 	for i := 0; i < nscripts; i++ {
 		listener = i >= nbody
+		atkListener = i >= natk0
 		ops := []term.T{}
 		for j := r.Range(0, 5); j > 0; j-- {
 			ops = append(ops, genOp())
@@ -125,7 +131,14 @@ func genSim(r *term.Rng, idx int) term.T {
 	lids := func(k int) term.T {
 		out := []term.T{}
 		for ; k > 0; k-- {
-			out = append(out, term.Nat(nbody+r.Intn(nscripts-nbody)))
+			out = append(out, term.Nat(nbody+r.Intn(natk0-nbody)))
+		}
+		return term.L(out...)
+	}
+	aids := func(k int) term.T {
+		out := []term.T{}
+		for ; k > 0 && natk > 0; k-- {
+			out = append(out, term.Nat(natk0+r.Intn(natk)))
 		}
 		return term.L(out...)
 	}
@@ -191,7 +204,7 @@ func genSim(r *term.Rng, idx int) term.T {
 	}
 	return term.C("mkCfg", term.L(units...), term.L(scripts...), term.L(next...), term.L(ults...),
 		lids(r.Range(0, 1)), lids(r.Range(0, 4)), lids(r.Range(0, 4)), lids(r.Range(0, 4)), lids(r.Range(0, 3)),
-		lids(r.Range(0, 3)), lids(r.Range(0, 3)),
+		lids(r.Range(0, 3)), lids(r.Range(0, 3)), aids(r.Range(0, 3)),
 		term.I(int64(r.Range(0, 4))), term.I(int64(r.Range(0, 12))))
 }
 
